@@ -532,6 +532,9 @@ type sfWrapScenario struct {
 	Grace bool
 	Bound int
 	Fine  bool
+	// Timers: how many timer firings the environment may deliver (a timer may fire at any scheduling point:
+	// the wrappers have no timers, so this matters only to code that gives up waiting after some time)
+	Timers int
 }
 
 func newSession(o sfOp, thread int) *sessions.SessionState {
@@ -558,7 +561,7 @@ func newSession(o sfOp, thread int) *sessions.SessionState {
 
 func sfWrapExecute(x *explore.Exec, sc sfWrapScenario) (*sfTrace, *sched.Sched) {
 	tr := &sfTrace{}
-	s := sched.Run(x, func(s *sched.Sched) { s.FineGrained = sc.Fine }, func(s *sched.Sched) {
+	s := sched.Run(x, func(s *sched.Sched) { s.FineGrained = sc.Fine; s.TimerBudget = sc.Timers }, func(s *sched.Sched) {
 		inner := &fakeInner{s: s, x: x, tr: tr, grace: sc.Grace}
 		var pw *proxyp.SingleFlightProvider
 		var pws []*proxyp.SingleFlightProvider
@@ -670,6 +673,10 @@ func sfScenarios(c *fw.Ctx) ([]sfGroupScenario, []sfWrapScenario) {
 	rd := func(code, redirect string) sfOp { return sfOp{Endpoint: "Redeem", Token: code, Email: redirect} }
 	up := func(o sfOp, w int, allowed ...string) sfOp { o.Wrapper, o.Allowed = w, allowed; return o }
 	wraps := []sfWrapScenario{
+		// (first, so that it is reached whatever the later scenarios cost) a timer, if the wrapper has one, may fire
+		// while a call is in flight: every caller still receives the execution's result
+		{Name: "proxy/validate-while-a-timer-may-fire", Side: "proxy", Timers: 1, Ops: [][]sfOp{{v("T")}, {v("T")}}, Bound: 2},
+		{Name: "auth/validate-while-a-timer-may-fire", Side: "auth", Timers: 1, Ops: [][]sfOp{{v("T")}, {v("T")}}, Bound: 2},
 		{Name: "proxy/two-upstreams-same-token", Side: "proxy", Ops: [][]sfOp{{up(v("T"), 0, "admins")}, {up(v("T"), 1, "staff")}, {up(v("T"), 0, "admins")}}, Bound: b3},
 		{Name: "proxy/two-upstreams-refresh", Side: "proxy", Ops: [][]sfOp{{up(r("RefreshSession", "R"), 0, "admins")}, {up(r("RefreshSession", "R"), 1, "staff")}}, Bound: -1},
 		{Name: "proxy/validate-without-refresh-token", Side: "proxy", Ops: [][]sfOp{{nr(v("T"))}, {nr(v("U"))}, {nr(v("T"))}}, Bound: b3},
@@ -770,6 +777,7 @@ func init() {
 			"threads = 2-3 callers x 1-2 calls over colliding and non-colliding subjects/endpoints; choice points = next thread at every mutex/WaitGroup operation and inside the provider call, and the call's outcome; " +
 			"oracle = interval model (DESIGN.md A.4): executions of one subject disjoint, a merged caller's result comes from an overlapping execution of the same endpoint and subject, none after the leader returned, leader told the number of joiners, no deadlock, merged caller's session fields equal the leader's; " +
 			"e2e/*: two whole requests through the REAL proxy (environment -> LoadConfig -> New -> logging handler) as scheduler threads, authenticator answered in memory inside the calling thread (a scheduling point per call), real loopback backends, in the statement-granularity scenarios a scheduling point before every statement of oauthproxy.go; differential oracle: every request ends exactly as it ends when it runs alone; e2e-auth/*: the same for the REAL authenticator (NewAuthenticatorMux -> timeout handler -> logging handler, scripted IdP over TLS, every IdP call a scheduling point), plus: every state-changing IdP call made when the requests run alone is made here too; e2e requests whose handler panics die like under net/http (recovered) while the others go on, so a caller left waiting for ever is seen as a deadlock; e2e/one-session-twice-authenticator-unreachable: the back channel fails at connection level; " +
+			"proxy|auth/validate-while-a-timer-may-fire: the wrappers with a timer budget of one (a timer, if the wrapper has one, may fire at any scheduling point): every caller still receives the execution's result; " +
 			"provider-auth/*: the authenticator's wrapper around the REAL GoogleProvider / OktaProvider (endpoints at the scripted IdP, fresh per execution): two threads make the same call {RefreshSessionIfNeeded, ValidateSessionState, Revoke} for two different users (one with good tokens, one with refused ones) whose sessions {have, lack} a refresh token, and for two copies of ONE login (same refresh token, different access tokens); each ends as when calling alone, and the identity provider is never working on two identical requests (endpoint, token) at the same moment (also checked in e2e-auth/*); provider-auth/group-cache/*: wrapper -> real GroupCache -> scripted directory, the cache filled, the virtual clock moved on by {0, a quarter, three quarters, more than} the cache TTL, then the same question from two threads (preemption bound 2): the directory is never working on two identical questions at once; " +
 			"distinct_nontrivial = distinct (who ran / who merged / results) signatures among executions in which at least one call was merged",
 		Assumptions: []string{
